@@ -64,7 +64,7 @@ pub fn check(ctx: &mut Ctx, doc: &Tree, path: &JPath, text: &str) {
     }
     // the same selection appended to a data buffer that already holds bytes (with no offsets
     // reported for them): the offsets are positions in that buffer
-    if ctx.case_no % 3 == 0 {
+    if ctx.case_no % 3 == 0 && enc.len() < 100_000 {
         if let Outcome::Items(exp) = &expected {
             let (mut data, mut offs): (Vec<u8>, Vec<u64>) = (vec![0x5A, 0x80, 0, 0, 1], Vec::new());
             if let Sel::Ok(_) = select_into(text.as_bytes(), &enc, 0, &mut data, &mut offs) {
@@ -257,10 +257,11 @@ pub fn run(ctx: &mut Ctx) {
             let style = if rng.chance(1, 4) { refpath::RStyle { spacing: rng.bool(), kwcase: false, quoting: true, esc: true } } else { refpath::PLAIN };
             let text = refpath::render(&path, &style, &mut rng);
             check(ctx, &doc, &path, &text);
-            if round == 0 && !ctx.miri {
+            let small = doc.nodes() < 3000;
+            if round == 0 && small && !ctx.miri {
                 arith_is_reported(ctx, &doc, &path, &mut rng);
             }
-            if round == 0 && matches!(path, JPath::Steps(_)) && (!ctx.miri || i % 4 == 0) {
+            if round == 0 && small && matches!(path, JPath::Steps(_)) && (!ctx.miri || i % 4 == 0) {
                 // the same steps written without the leading `$` select the same items
                 let plain = refpath::render(&path, &refpath::PLAIN, &mut rng);
                 let rootless = plain.strip_prefix("$.").filter(|r| r.starts_with(|c: char| c.is_ascii_alphabetic())).or_else(|| plain.strip_prefix('$').filter(|r| r.starts_with('[') || r.starts_with(':')));
@@ -272,7 +273,7 @@ pub fn run(ctx: &mut Ctx) {
                     }
                 }
             }
-            if round == 2 && i % 3 == 0 && !refpath::has_arith(&path) && !ctx.miri {
+            if round == 2 && small && i % 3 == 0 && !refpath::has_arith(&path) && !ctx.miri {
                 // one Selector object for several documents in turn
                 let enc = refcodec::encode(&doc);
                 let other = refcodec::encode(&gen::derive(&doc, &mut rng));
